@@ -888,6 +888,103 @@ func (w *world) armRandom(n int) {
 }
 
 // ---------------------------------------------------------------------------
+// Arm P (domain probe): first URLs that are syntactically valid (url.Parse —
+// the library's own acceptance test in redactExternalURL — accepts them) but
+// outside the tidy alphabet of the other arms: percent-escapes and reserved
+// characters in user info and query, quotes and spaces in the query, empty
+// password, user without password, IPv6 literal host, several '?'. Every
+// fetch fails (validator rejection in each echo style, 500 from the origin, or
+// connection refused); no error may contain a secret, raw or decoded.
+
+func (w *world) armOddURLs() {
+	r := w.r
+	type spelling struct {
+		name, user, pass, query string // as written in the URL
+		host                    string // "" = origin A
+	}
+	mk := func(n int, kind string) string { return w.secret(kind, n) }
+	outcomes := []string{"reject:plain", "reject:echo-raw", "reject:echo-quoted", "reject:echo-reparsed", "status-500", "refused"}
+	for oi, outcome := range outcomes {
+		for si := 0; si < 9; si++ {
+			w.caseNo++
+			w.A.reset()
+			w.B.reset()
+			q, u, pw := mk(0, "QS"), mk(0, "US"), mk(0, "PW")
+			sp := []spelling{
+				{"percent-escapes", u + "%40corp", pw + "%3A%2F%3F", "sig=" + q + "%26x%3D1&n=0", ""},
+				{"reserved-chars-in-userinfo", u + "!$&'()*+,;=", pw + "!$&'()*+,;=:", "sig=" + q, ""},
+				{"quote-and-space-in-query", u, pw, "sig=" + q + "\"quoted\" and spaced&n=0", ""},
+				{"empty-password", u, "", "sig=" + q, ""},
+				{"user-without-password", u, "\x00none", "sig=" + q, ""},
+				{"several-question-marks", u, pw, "sig=" + q + "?again=" + q + "?", ""},
+				{"ipv6-literal-host", u, pw, "sig=" + q, "[::1]:1"},
+				{"query-only-secret-no-userinfo", "\x00none", "\x00none", "sig=" + q + "&sig=" + q, ""},
+				{"upper-case-scheme-and-escapes", u + "%2B", pw + "%25", "sig=" + q + "%3D", ""},
+			}[si]
+			host := w.A.host
+			if sp.host != "" {
+				host = sp.host
+			}
+			if outcome == "refused" && sp.host == "" {
+				host = "127.0.0.1:1"
+			}
+			auth := ""
+			switch {
+			case sp.user == "\x00none":
+			case sp.pass == "\x00none":
+				auth = sp.user + "@"
+			default:
+				auth = sp.user + ":" + sp.pass + "@"
+			}
+			path := fmt.Sprintf("/c%d/h0", w.caseNo)
+			scheme := "http"
+			if sp.name == "upper-case-scheme-and-escapes" {
+				scheme = "HTTP"
+			}
+			raw := fmt.Sprintf("%s://%s%s%s?%s", scheme, auth, host, path, sp.query)
+			pu, perr := url.Parse(raw)
+			if perr != nil {
+				r.Fatal("odd-URL probe built a URL url.Parse rejects (%s): %v", sp.name, perr)
+			}
+			// secrets: as written, and decoded (what a validator sees via net/url)
+			secrets := []string{q}
+			if sp.user != "\x00none" {
+				secrets = append(secrets, sp.user, pu.User.Username())
+				if p, ok := pu.User.Password(); ok && p != "" {
+					secrets = append(secrets, sp.pass, p)
+				}
+			}
+			v := &vspec{Kind: "accept-all", Style: "plain"}
+			if strings.HasPrefix(outcome, "reject:") {
+				v = &vspec{Kind: "always", Style: strings.TrimPrefix(outcome, "reject:")}
+			}
+			w.A.add(path, step{kind: sStatus, status: 500})
+			c := &fetchCase{Name: "odd-url " + sp.name + " " + outcome, Validator: v, MaxRedirects: 3, MaxRetries: 1, First: raw,
+				Chain: []hop{{URL: raw, Secrets: []string{q, "", ""}}}, finalEncoded: -1}
+			o := w.run(c)
+			pos := "odd-first-url"
+			if strings.HasPrefix(outcome, "reject:") {
+				pos = "rejected-first-url"
+			}
+			w.judge(c, o, pos)
+			if o.OK {
+				r.Fatal("odd-URL probe case unexpectedly succeeded: %s", c.Name)
+			}
+			for _, sct := range secrets {
+				if sct != "" && strings.Contains(o.Err, sct) {
+					r.Violation("secret-in-error:first-url:odd-spelling:"+sp.name+":"+strings.SplitN(outcome, ":", 2)[0],
+						"a returned error contains user info or query of a syntactically valid first URL", map[string]any{"case": c, "observed": o, "secret": sct})
+				}
+			}
+			r.Class("odd-first-url:" + sp.name)
+			r.Class("odd-first-url-outcome:" + outcome)
+			r.Case(c.Name)
+			_ = oi
+		}
+	}
+}
+
+// ---------------------------------------------------------------------------
 
 func main() {
 	r := mon.Start("C31")
@@ -901,6 +998,8 @@ func main() {
 		"body-exactly-at-fetch-cap-accepted", "decoded-exactly-at-decompression-cap-accepted",
 		"body-vs-fetch-cap:+1:cl=true", "body-vs-fetch-cap:+1:cl=false", "decoded-vs-decompression-cap:+1:declared-size", "decoded-vs-decompression-cap:+1:streamed-no-size", "decoded-vs-decompression-cap:+1:multi-frame-declared-sizes", "decoded-vs-decompression-cap:+0:multi-frame-declared-sizes", "zstd-bomb",
 		"error-says-fetch-cap", "error-says-decompression-cap", "error-says-redirect-limit", "error-says-rejected-by-validator",
+		"odd-first-url:percent-escapes", "odd-first-url:reserved-chars-in-userinfo", "odd-first-url:quote-and-space-in-query", "odd-first-url:ipv6-literal-host",
+		"odd-first-url-outcome:reject:echo-reparsed", "odd-first-url-outcome:status-500", "odd-first-url-outcome:refused",
 		"redirect-loop", "transient-failures:5", "transient-failures:0", "first-url-uppercase-scheme")
 	r.Assume("the logging RoundTripper sits directly above net/http's Transport: 'sent' = RoundTrip calls issued by the fetcher's http.Client; req.Response == nil marks the first request of an attempt (net/http sets it on redirect-following requests)")
 	r.Assume("validators are pure predicates owned by the harness; the same predicate judges every logged URL")
@@ -929,6 +1028,7 @@ func main() {
 	n := w.armEnumerate()
 	r.SetExhaustive(true)
 	r.Set("enumerated_cases", n)
+	w.armOddURLs()
 	nr := r.N(1200, 60000)
 	w.armRandom(nr)
 	r.Set("random_remainder_cases", nr)
